@@ -1,14 +1,24 @@
-"""C14 - triangulation: dispatch, pairing and counting only."""
+"""C14 - triangulation: dispatch, pairing and counting only.
+
+The rules are structural patterns with metavariables (emsverif.pattern): `$x` is a local
+variable bound consistently across the function, so renaming locals, reformatting,
+import aliases and added statements between the matched ones do not matter.
+"""
 from __future__ import annotations
 
 import ast
 
-from ..linear import Lin, const, linear, symbol
-from ..model import AnalysisError, const_value, dotted, kwarg, norm_text, walk_no_nested
+from ..linear import const, linear, symbol
+from ..model import const_value, kwarg, norm_text, walk_no_nested
+from ..pattern import Matcher
 from ..report import Context
-from .common import calls_in, callee, enclosing_ifs, is_none, method_calls
+from .common import calls_in, callee
 
 TRI = 'emsarray.operations.triangulate'
+
+
+def _line(node) -> int:
+    return getattr(node, 'lineno', 0)
 
 
 def run(ctx: Context) -> None:
@@ -22,182 +32,181 @@ def run(ctx: Context) -> None:
     ctx.assume("NOT decided: containment, non-overlap and exact cover of the triangles (GEOS geometry at run time); pandas de-duplication and joins")
 
     td = ctx.func(f"{TRI}.triangulate_dataset")
-    flow = ctx.flow(td)
-
-    def assign_of(name):
-        return [n for n in walk_no_nested(td.node) if isinstance(n, ast.Assign) and norm_text(n.targets[0]) == name]
+    m = Matcher(ctx, td)
+    ds = td.params[0]
 
     # ---- R14.1
-    pl = assign_of('polygon_length')
-    ok = len(pl) == 1 and norm_text(pl[0].value) == 'shapely.get_num_coordinates(polygons)'
-    ctx.check('R14.1', ok, "polygon_length is the coordinate count of every cell (0 for cells without geometry)", td, pl[0] if pl else td.node)
-    pol = assign_of('polygons')
-    ok = len(pol) == 1 and norm_text(pol[0].value) == f"{td.params[0]}.ems.polygons"
-    ctx.check('R14.1', ok, "the cells are dataset.ems.polygons (index = linear index)", td, pol[0] if pol else td.node)
-    conc = assign_of('polygon_is_concave')
-    hulls = assign_of('convex_hulls')
-    hl = assign_of('convex_hull_length')
-    ok = (len(conc) == 1 and norm_text(conc[0].value) == 'numpy.flatnonzero(convex_hull_length != polygon_length)'
-          and len(hulls) == 1 and norm_text(hulls[0].value) == 'shapely.convex_hull(polygons)'
-          and len(hl) == 1 and norm_text(hl[0].value) == 'shapely.get_num_coordinates(convex_hulls)')
-    ctx.check('R14.1', ok, "a cell is concave (or has collinear vertices) iff its convex hull has a different vertex count", td, conc[0] if conc else td.node,
-              construct=f"polygon_is_concave = {norm_text(conc[0].value) if conc else '?'}")
-    zero = [n for n in walk_no_nested(td.node) if isinstance(n, ast.Assign) and isinstance(n.targets[0], ast.Subscript)
-            and norm_text(n.targets[0].value) == 'polygon_length']
-    ok = len(zero) == 1 and norm_text(zero[0].targets[0].slice) == 'polygon_is_concave' and const_value(zero[0].value, None) == 0
-    ctx.check('R14.1', ok, "exactly those cells are removed from the fan path (their length is set to 0)", td, zero[0] if zero else td.node)
-    loops = [n for n in walk_no_nested(td.node) if isinstance(n, ast.For)]
-    ear = [l for l in loops if norm_text(l.iter) == 'polygon_is_concave']
-    ok = len(ear) == 1 and bool(zero) and bool(conc) and zero[0].lineno > conc[0].lineno and ear[0].lineno > zero[0].lineno
-    ctx.check('R14.1', ok, "and exactly those cells are iterated by the ear clipping path (same index array)", td, ear[0] if ear else td.node,
-              construct=f"ear loop over {norm_text(ear[0].iter) if ear else '?'}")
-    ul = assign_of('unique_lengths')
-    bulk = [l for l in loops if norm_text(l.iter) == 'unique_lengths']
-    ok = (len(ul) == 1 and norm_text(ul[0].value) == 'numpy.unique(polygon_length)' and bool(zero) and ul[0].lineno > zero[0].lineno and len(bulk) == 1)
-    ctx.check('R14.1', ok, "the fan path visits every remaining distinct length once (computed after the concave cells were removed)", td, ul[0] if ul else td.node)
-    if bulk:
-        first = bulk[0].body[0] if bulk[0].body else None
-        ok = isinstance(first, ast.If) and norm_text(first.test) == 'unique_length == 0' and any(isinstance(s, ast.Continue) for s in first.body)
-        ctx.check('R14.1', ok, "length 0 (no geometry, or handled elsewhere) is skipped", td, first or bulk[0])
-        sel = [n for n in ast.walk(bulk[0]) if isinstance(n, ast.Assign) and norm_text(n.targets[0]) == 'same_length_face_indices']
-        ok = len(sel) == 1 and norm_text(sel[0].value) == 'numpy.flatnonzero(polygon_length == unique_length)'
-        ctx.check('R14.1', ok, "a batch is all cells of exactly that length", td, sel[0] if sel else bulk[0])
-        # ---- R14.3
-        gat = [n for n in ast.walk(bulk[0]) if isinstance(n, ast.Assign) and norm_text(n.targets[0]) == 'same_length_polygons']
-        tri = [n for n in ast.walk(bulk[0]) if isinstance(n, ast.Assign) and norm_text(n.targets[0]) == 'vertex_triangles']
-        ok = (len(gat) == 1 and norm_text(gat[0].value) == 'polygons[same_length_face_indices]'
-              and len(tri) == 1 and norm_text(tri[0].value) == '_triangulate_polygons_by_length(same_length_polygons)')
-        ctx.check('R14.3', ok, "the batch's polygons are gathered with the batch's own index array and fanned together", td, gat[0] if gat else bulk[0])
-        inner = [n for n in ast.walk(bulk[0]) if isinstance(n, ast.For) and n is not bulk[0]]
-        ok = (len(inner) == 1 and norm_text(inner[0].iter) == 'zip(same_length_face_indices, vertex_triangles)'
-              and norm_text(inner[0].target) == '(face_index, triangles)'
-              and any(norm_text(s) == '_add_triangles(int(face_index), triangles)' for s in inner[0].body))
-        ctx.check('R14.3', ok, "triangles are labelled by zipping that same index array with the fan result", td, inner[0] if inner else bulk[0])
-    if ear:
-        body = [norm_text(s) for s in ear[0].body]
-        ok = body == ['polygon = polygons[face_index]', 'triangles = _triangulate_concave_polygon(polygon)', '_add_triangles(int(face_index), triangles)'] \
-            and norm_text(ear[0].target) == 'face_index'
-        ctx.check('R14.3', ok, "the ear path triangulates polygons[i] and labels the result with that same i", td, ear[0], construct=f"ear loop body {body}")
+    pol = m.stmt(f"$polygons = {ds}.ems.polygons")
+    ctx.check('R14.1', pol is not None, "the cells are dataset.ems.polygons (index = linear index)", td, pol or td.node,
+              construct='polygons = dataset.ems.polygons')
+    pl = m.stmt('$length = shapely.get_num_coordinates($polygons)')
+    ctx.check('R14.1', pl is not None, "the per-cell length is the coordinate count of every cell (0 for cells without geometry)", td, pl or td.node,
+              construct='length = shapely.get_num_coordinates(polygons)')
+    ok = m.has('$hulls = shapely.convex_hull($polygons)', '$hull_length = shapely.get_num_coordinates($hulls)')
+    conc = m.stmt('$concave = numpy.flatnonzero($hull_length != $length)') or m.stmt('$concave = numpy.flatnonzero($length != $hull_length)')
+    ctx.check('R14.1', ok and conc is not None, "a cell is concave (or has collinear vertices) iff its convex hull has a different vertex count", td,
+              conc or td.node, construct='concave = flatnonzero(num_coordinates(convex_hull(polygons)) != length)')
+    zero = m.stmt('$length[$concave] = 0')
+    ctx.check('R14.1', zero is not None, "exactly those cells are removed from the fan path (their length is set to 0)", td, zero or td.node,
+              construct='length[concave] = 0')
+    ear = m.stmt('for $ear_i in $concave:\n    ...')
+    ok = ear is not None and conc is not None and zero is not None and _line(conc) < _line(zero) and _line(zero) < _line(ear)
+    ctx.check('R14.1', ok, "and exactly those cells are iterated by the ear clipping path (same index array)", td, ear or td.node,
+              construct='for i in concave: ...')
+    ul = m.stmt('$unique = numpy.unique($length)')
+    bulk = m.stmt('for $ul in $unique:\n    ...')
+    ok = ul is not None and bulk is not None and zero is not None and _line(ul) > _line(zero)
+    ctx.check('R14.1', ok, "the fan path visits every remaining distinct length once (computed after the concave cells were removed)", td, ul or td.node,
+              construct='unique = numpy.unique(length)  # after zeroing')
+    skip = m.stmt('if $ul == 0:\n    continue', within=bulk) if bulk is not None else None
+    ctx.check('R14.1', skip is not None and bulk.body and bulk.body[0] is skip, "length 0 (no geometry, or handled by ear clipping) is skipped", td, skip or bulk or td.node,
+              construct='if unique_length == 0: continue')
+    sel = m.stmt('$batch = numpy.flatnonzero($length == $ul)', within=bulk) if bulk is not None else None
+    ctx.check('R14.1', sel is not None, "a batch is all cells of exactly that length", td, sel or bulk or td.node,
+              construct='batch = numpy.flatnonzero(length == unique_length)')
+
+    # ---- R14.3
+    if bulk is not None:
+        ok = m.has('$batch_polygons = $polygons[$batch]', '$fan = _triangulate_polygons_by_length($batch_polygons)', within=bulk)
+        ctx.check('R14.3', ok, "the batch's polygons are gathered with the batch's own index array and fanned together", td, bulk,
+                  construct='fan = _triangulate_polygons_by_length(polygons[batch])')
+        lab = m.stmt('for $fi, $tri in zip($batch, $fan):\n    _add_triangles(int($fi), $tri)', within=bulk)
+        ctx.check('R14.3', lab is not None, "triangles are labelled by zipping that same index array with the fan result", td, lab or bulk,
+                  construct='for face_index, triangles in zip(batch, fan): _add_triangles(int(face_index), triangles)')
+    else:
+        ctx.check('R14.3', False, "the fan path exists", td, td.node, construct='bulk loop not found')
+    if ear is not None:
+        m2 = Matcher(ctx, td, m.bind)
+        ok = m2.ordered('$poly = $polygons[$ear_i]', '$ear_tris = _triangulate_concave_polygon($poly)', '_add_triangles(int($ear_i), $ear_tris)', within=ear)
+        ctx.check('R14.3', ok, "the ear path triangulates polygons[i] and labels the result with that same i", td, ear,
+                  construct='polygon = polygons[i]; triangles = _triangulate_concave_polygon(polygon); _add_triangles(int(i), triangles)')
     add = p.functions.get(f"{td.qualname}.<locals>._add_triangles")
     ctx.need('R14.4', add is not None, "triangulate_dataset writes triangles through one helper", td)
-    body = [norm_text(s) for s in add.body if not isinstance(s, ast.Nonlocal)]
-    ok = body == ['current_length = len(vertex_triangles)', 'face_indices[current_face:current_face + current_length] = face_index',
-                  'triangle_coords[current_face:current_face + current_length] = vertex_triangles', 'current_face += current_length']
+    ma = Matcher(ctx, add)
+    fi_p, tri_p = add.params[0], add.params[1]
+    ok = ma.ordered(f"$n = len({tri_p})", f"$labels[$cursor:$cursor + $n] = {fi_p}", f"$coords[$cursor:$cursor + $n] = {tri_p}", '$cursor += $n')
     ctx.check('R14.3', ok, "labels and coordinates of a batch are written to the same rows, then the cursor advances by the batch size", add, add.node,
-              construct=f"_add_triangles: {body}")
+              construct='labels[c:c+n] = face_index; coords[c:c+n] = triangles; c += n')
+    labels, coords, cursor = ma.name('labels'), ma.name('coords'), ma.name('cursor')
+
     # ---- R14.4
-    tt = assign_of('total_triangles')
-    ok = len(tt) == 1 and norm_text(tt[0].value) == 'numpy.sum(polygon_length[numpy.nonzero(polygon_length)] - 3)' and bool(zero) and tt[0].lineno < zero[0].lineno
+    m.bind.update({k: v for k, v in (('labels', labels), ('coords', coords), ('cursor', cursor)) if v and v not in m.bind.values()})
+    tt = m.stmt('$total = numpy.sum($length[numpy.nonzero($length)] - 3)')
+    ok = tt is not None and zero is not None and _line(tt) < _line(zero)
     ctx.check('R14.4', ok, "total = sum over cells with geometry of (coordinate count - 3) = n - 2 triangles per n-gon, counted before concave cells are zeroed", td,
-              tt[0] if tt else td.node, construct=f"total_triangles = {norm_text(tt[0].value) if tt else '?'}")
-    fi_alloc = assign_of('face_indices')
-    tc_alloc = assign_of('triangle_coords')
-    ok = (len(fi_alloc) == 1 and norm_text(fi_alloc[0].value) == 'numpy.empty(total_triangles, dtype=int)'
-          and len(tc_alloc) == 1 and norm_text(tc_alloc[0].value) == 'numpy.empty((total_triangles, 3, 2), dtype=float)')
-    ctx.check('R14.4', ok, "labels and (triangle, vertex, xy) coordinates are preallocated for that total", td, fi_alloc[0] if fi_alloc else td.node)
-    cur = assign_of('current_face')
-    ok = len(cur) == 1 and const_value(cur[0].value, None) == 0
-    ctx.check('R14.4', ok, "the write cursor starts at 0", td, cur[0] if cur else td.node)
-    asserts = [n for n in walk_no_nested(td.node) if isinstance(n, ast.Assert)]
-    ok = any(norm_text(a.test) == 'current_face == total_triangles' for a in asserts) and \
-        all(a.lineno > max((l.lineno for l in loops), default=0) for a in asserts if norm_text(a.test) == 'current_face == total_triangles')
-    ctx.check('R14.4', ok, "after both paths the cursor is asserted to equal the preallocated total", td, asserts[0] if asserts else td.node)
-    ok = all(norm_text(r.value) == '(vertex_coords, triangles, faces)' for r in td.returns()) and td.returns()
-    fa = assign_of('faces')
-    ok = ok and len(fa) == 1 and norm_text(fa[0].value) == "joined_df['face_indices'].to_numpy()"
-    ctx.check('R14.4', bool(ok), "the labels returned are the ones written", td, fa[0] if fa else td.node)
+              tt or td.node, construct='total = numpy.sum(length[numpy.nonzero(length)] - 3)')
+    ok = m.has('$labels = numpy.empty($total, dtype=int)', '$coords = numpy.empty(($total, 3, 2), dtype=float)')
+    ctx.check('R14.4', ok, "labels and (triangle, vertex, xy) coordinates are preallocated for that total", td, tt or td.node,
+              construct='labels = numpy.empty(total, int); coords = numpy.empty((total, 3, 2), float)')
+    cur = m.stmt('$cursor = 0')
+    ctx.check('R14.4', cur is not None, "the write cursor starts at 0", td, cur or td.node, construct='cursor = 0')
+    asr = m.stmt('assert $cursor == $total') or m.stmt('assert $total == $cursor')
+    loops_end = max([_line(x) for x in (ear, bulk) if x is not None] + [0])
+    ok = asr is not None and _line(asr) > loops_end
+    ctx.check('R14.4', ok, "after both paths the cursor is asserted to equal the preallocated total", td, asr or td.node, construct='assert cursor == total')
 
     # ---- R14.5
     df = [c for c in calls_in(td) if (callee(ctx, td, c) or '').endswith('pandas.DataFrame')]
     cols = {}
     if len(df) == 1 and df[0].args and isinstance(df[0].args[0], ast.Dict):
         for k, v in zip(df[0].args[0].keys, df[0].args[0].values):
-            inner = v.args[0] if isinstance(v, ast.Call) and v.args else v
-            cols[const_value(k, None)] = norm_text(inner)
-    want = {'face_indices': 'face_indices'}
+            inner = v.args[0] if isinstance(v, ast.Call) and v.args and (callee(ctx, td, v) or '').endswith('Series') else v
+            cols[const_value(k, None)] = inner
+    lab_col = [k for k, v in cols.items() if isinstance(v, ast.Name) and v.id == labels]
+    okc = len(lab_col) == 1
+    vertex_cols = {}
+    for k, v in cols.items():
+        if k in lab_col:
+            continue
+        if isinstance(v, ast.Subscript) and isinstance(v.value, ast.Name) and v.value.id == coords and isinstance(v.slice, ast.Tuple) and len(v.slice.elts) == 3 \
+                and isinstance(v.slice.elts[0], ast.Slice):
+            vertex_cols[k] = (const_value(v.slice.elts[1], None), const_value(v.slice.elts[2], None))
+        else:
+            okc = False
+    want = {}
     for k in range(3):
-        want[f"x{k}"] = f"triangle_coords[:, {k}, 0]"
-        want[f"y{k}"] = f"triangle_coords[:, {k}, 1]"
-    ctx.check('R14.5', cols == want, "x<k> / y<k> are coordinate 0 / 1 of triangle vertex k", td, df[0] if df else td.node, construct=f"frame columns {cols}")
-    joins = [c for c in method_calls(td, 'join')]
+        want[f"x{k}"] = (k, 0)
+        want[f"y{k}"] = (k, 1)
+    ctx.check('R14.5', okc and vertex_cols == want, "x<k> / y<k> are coordinate 0 / 1 of triangle vertex k", td, df[0] if df else td.node,
+              construct=f"frame columns {{name: (vertex, xy)}} = {vertex_cols}")
+    vi = m.stmt('$all_coords = shapely.get_coordinates($polygons)')
+    vx = m.stmt('$vindex = pandas.MultiIndex.from_arrays($all_coords.T).drop_duplicates()')
+    ctx.check('R14.5', vi is not None and vx is not None, "the vertex table is every polygon coordinate, de-duplicated (x, y) pairs", td, vx or td.node,
+              construct='vertex_index = MultiIndex.from_arrays(get_coordinates(polygons).T).drop_duplicates()')
+    ok = m.has('$vseries = pandas.Series(numpy.arange(len($vindex)), index=$vindex)', '$vcoords = numpy.array($vindex.to_list())')
+    ctx.check('R14.5', ok, "vertex k of the returned list is entry k of that table, and the join maps coordinates to those positions", td, vx or td.node,
+              construct='vertex_series = Series(arange(len(vertex_index)), index=vertex_index); vertex_coords = array(vertex_index.to_list())')
+    vs = m.name('vseries')
     got = {}
-    for c in joins:
-        a = c.args[0] if c.args else None
-        on = kwarg(c, 'on')
-        if isinstance(a, ast.Call) and isinstance(a.func, ast.Attribute) and a.func.attr == 'rename' and norm_text(a.func.value) == 'vertex_series':
-            got[const_value(a.args[0], None)] = [const_value(e, None) for e in on.elts] if isinstance(on, (ast.List, ast.Tuple)) else None
-    ctx.check('R14.5', got == {f"v{k}": [f"x{k}", f"y{k}"] for k in range(3)}, "v<k> is the vertex index joined on exactly [x<k>, y<k>]", td,
-              joins[0] if joins else td.node, construct=f"joins {got}")
-    tr = [n for n in td.body if isinstance(n, ast.Assign) and norm_text(n.targets[0]) == 'triangles']
-    ok = len(tr) == 1 and norm_text(tr[0].value) == "joined_df[['v0', 'v1', 'v2']].to_numpy()"
-    ctx.check('R14.5', ok, "the triangles returned are (v0, v1, v2) in that order", td, tr[0] if tr else td.node)
-    vi = assign_of('vertex_index')
-    vs = assign_of('vertex_series')
-    vc = assign_of('vertex_coords')
-    ac = assign_of('all_coords')
-    ok = (len(ac) == 1 and norm_text(ac[0].value) == 'shapely.get_coordinates(polygons)'
-          and len(vi) == 1 and norm_text(vi[0].value) == 'pandas.MultiIndex.from_arrays(all_coords.T).drop_duplicates()')
-    ctx.check('R14.5', ok, "the vertex table is every polygon coordinate, de-duplicated (x, y) pairs", td, vi[0] if vi else td.node)
-    ok = (len(vs) == 1 and norm_text(vs[0].value) == 'pandas.Series(numpy.arange(len(vertex_index)), index=vertex_index)'
-          and len(vc) == 1 and norm_text(vc[0].value) == 'numpy.array(vertex_index.to_list())')
-    ctx.check('R14.5', ok, "vertex k of the returned list is entry k of that table, and the join maps coordinates to those positions", td, vs[0] if vs else td.node)
-    ctx.check('R14.5', bool(vi) and bool(vc) and bool(vs), "one table serves both the vertex list and the index lookup", td, td.node, construct='vertex_index -> vertex_coords, vertex_series')
+    for c in calls_in(td):
+        if isinstance(c.func, ast.Attribute) and c.func.attr == 'join' and c.args:
+            a = c.args[0]
+            on = kwarg(c, 'on')
+            if isinstance(a, ast.Call) and isinstance(a.func, ast.Attribute) and a.func.attr == 'rename' and isinstance(a.func.value, ast.Name) and a.func.value.id == vs:
+                got[const_value(a.args[0], None)] = [const_value(e, None) for e in on.elts] if isinstance(on, (ast.List, ast.Tuple)) else None
+    ctx.check('R14.5', got == {f"v{k}": [f"x{k}", f"y{k}"] for k in range(3)}, "v<k> is the vertex index joined on exactly [x<k>, y<k>]", td, td.node,
+              construct=f"joins {got}")
+    tr = m.stmt("$triangles = $joined[['v0', 'v1', 'v2']].to_numpy()")
+    fa = m.stmt(f"$faces = $joined['{lab_col[0] if lab_col else 'face_indices'}'].to_numpy()")
+    ctx.check('R14.5', tr is not None, "the triangles returned are (v0, v1, v2) in that order", td, tr or td.node, construct="triangles = joined[['v0','v1','v2']].to_numpy()")
+    ok = fa is not None and all(Matcher(ctx, td, m.bind).match('($vcoords, $triangles, $faces)', r.value) for r in td.returns()) and td.returns()
+    ctx.check('R14.4', bool(ok), "the labels returned are the ones written, with the vertex list and the triangles", td, fa or td.node,
+              construct='return (vertex_coords, triangles, faces)')
+    ctx.check('R14.5', vx is not None and m.name('vcoords') is not None and vs is not None, "one table serves both the vertex list and the index lookup", td, td.node,
+              construct='vertex_index -> vertex_coords, vertex_series')
 
     # ---- R14.2
     tb = ctx.func(f"{TRI}._triangulate_polygons_by_length")
+    mb = Matcher(ctx, tb)
     bflow = ctx.flow(tb)
-
-    def bassign(name):
-        return [n for n in walk_no_nested(tb.node) if (isinstance(n, ast.Assign) and norm_text(n.targets[0]) == name)
-                or (isinstance(n, ast.AnnAssign) and n.value is not None and norm_text(n.target) == name)]
-
-    vcn = bassign('vertex_count')
-    ok = len(vcn) == 1 and norm_text(vcn[0].value) == f"len({tb.params[0]}[0].exterior.coords) - 1"
-    ctx.check('R14.2', ok, "n = ring length minus the repeated closing point", tb, vcn[0] if vcn else tb.node)
-    co = bassign('coordinates')
-    texts = [norm_text(c.value) for c in co]
-    ok = (len(co) == 3 and texts[0] == f"shapely.get_coordinates(shapely.get_exterior_ring({tb.params[0]}))"
-          and texts[1] == f"coordinates.reshape((len({tb.params[0]}), vertex_count + 1, 2))" and texts[2] == 'coordinates[:, :-1, :]')
-    ctx.check('R14.2', ok, "coordinates are (polygon, vertex, xy) with the closing point dropped", tb, co[0] if co else tb.node, construct=f"coordinates: {texts}")
-    v0, v1, v2 = bassign('v0'), bassign('v1'), bassign('v2')
-    env = {'vertex_count': symbol('n')}
-    ok1 = len(v1) == 1 and norm_text(v1[0].value) == 'coordinates[:, 1:-1]'
-    ok2 = len(v2) == 1 and norm_text(v2[0].value) == 'coordinates[:, 2:]'
-    ctx.check('R14.2', ok1 and ok2, "v1 = vertices [1, n-1) and v2 = vertices [2, n): equal length n-2, shifted by one", tb, v1[0] if v1 else tb.node,
-              construct=f"v1 = {norm_text(v1[0].value) if v1 else '?'}; v2 = {norm_text(v2[0].value) if v2 else '?'}")
+    pp = tb.params[0]
+    vcn = mb.stmt(f"$n = len({pp}[0].exterior.coords) - 1")
+    ctx.check('R14.2', vcn is not None, "n = ring length minus the repeated closing point", tb, vcn or tb.node, construct='n = len(polygons[0].exterior.coords) - 1')
+    c1 = mb.stmt(f"$c = shapely.get_coordinates(shapely.get_exterior_ring({pp}))")
+    c2 = mb.stmt(f"$c = $c.reshape((len({pp}), $n + 1, 2))")
+    c3 = mb.stmt('$c = $c[:, :-1, :]') or mb.stmt('$c = $c[:, :-1]')
+    ok = all(x is not None for x in (c1, c2, c3)) and _line(c1) < _line(c2) < _line(c3)
+    ctx.check('R14.2', ok, "coordinates are (polygon, vertex, xy) with the closing point dropped", tb, c1 or tb.node,
+              construct='c = get_coordinates(rings); c = c.reshape((len(polygons), n + 1, 2)); c = c[:, :-1, :]')
+    v1 = mb.stmt('$v1 = $c[:, 1:-1]') or mb.stmt('$v1 = $c[:, 1:-1, :]')
+    v2 = mb.stmt('$v2 = $c[:, 2:]') or mb.stmt('$v2 = $c[:, 2:, :]')
+    ok = v1 is not None and v2 is not None and c3 is not None and _line(v1) > _line(c3) and _line(v2) > _line(c3)
+    ctx.check('R14.2', ok, "v1 = vertices [1, n-1) and v2 = vertices [2, n): equal length n-2, shifted by one", tb, v1 or tb.node,
+              construct='v1 = c[:, 1:-1]; v2 = c[:, 2:]')
+    v0 = mb.stmt('$v0 = numpy.repeat($c[:, 0, :].reshape((-1, 1, 2)), repeats=$$reps, axis=1)')
     ok0 = False
-    if len(v0) == 1 and isinstance(v0[0].value, ast.Call) and callee(ctx, tb, v0[0].value) == 'numpy.repeat':
-        c = v0[0].value
-        reps = linear(bflow, kwarg(c, 'repeats') or (c.args[1] if len(c.args) > 1 else None), env)
-        ok0 = (norm_text(c.args[0]) == 'coordinates[:, 0, :].reshape((-1, 1, 2))' and reps == symbol('n') - const(2)
-               and const_value(kwarg(c, 'axis') or (c.args[2] if len(c.args) > 2 else None), None) == 1)
-    ctx.check('R14.2', ok0, "v0 = vertex 0 repeated n-2 times along the triangle axis", tb, v0[0] if v0 else tb.node)
-    st = bassign('triangles')
-    ok = False
-    if len(st) == 1:
-        ok = norm_text(st[0].value) == 'numpy.stack([v0, v1, v2], axis=2)' and all(norm_text(r.value) == 'triangles' for r in tb.returns())
-    ctx.check('R14.2', ok, "triangle k of a polygon is (v0, v1[k], v2[k]) stacked on the vertex axis", tb, st[0] if st else tb.node)
+    if v0 is not None:
+        reps = linear(bflow, mb.enodes.get('reps'), {mb.name('n'): symbol('n')})
+        ok0 = reps == symbol('n') - const(2)
+    ctx.check('R14.2', ok0, "v0 = vertex 0 repeated n-2 times along the triangle axis", tb, v0 or tb.node, construct='v0 = numpy.repeat(c[:, 0, :].reshape((-1, 1, 2)), repeats=n - 2, axis=1)')
+    st = mb.stmt('$out = numpy.stack([$v0, $v1, $v2], axis=2)')
+    ok = st is not None and all(isinstance(r.value, ast.Name) and r.value.id == mb.name('out') for r in tb.returns()) and tb.returns()
+    ctx.check('R14.2', bool(ok), "triangle k of a polygon is (v0, v1[k], v2[k]) stacked on the vertex axis", tb, st or tb.node,
+              construct='return numpy.stack([v0, v1, v2], axis=2)')
 
     # ---- R14.6
     tcp = ctx.func(f"{TRI}._triangulate_concave_polygon")
-    txt = ' '.join(norm_text(s) for s in tcp.body)
-    cnt = [n for n in walk_no_nested(tcp.node) if isinstance(n, ast.Assign) and norm_text(n.targets[0]) == 'triangle_count']
-    ok = len(cnt) == 1 and norm_text(cnt[0].value) == f"len({tcp.params[0]}.exterior.coords) - 3"
-    ctx.check('R14.6', ok, "an n-gon (n+1 ring coordinates) yields n-2 triangles", tcp, cnt[0] if cnt else tcp.node)
-    wl = [n for n in walk_no_nested(tcp.node) if isinstance(n, ast.While)]
-    ok = len(wl) == 1 and norm_text(wl[0].test) == f"len({tcp.params[0]}.exterior.coords) > 4"
-    ctx.check('R14.6', ok, "ears are clipped until a triangle remains", tcp, wl[0] if wl else tcp.node)
-    tests = [n for n in ast.walk(tcp.node) if isinstance(n, ast.If) and 'covered_by' in norm_text(n.test)]
-    ok = len(tests) == 1 and norm_text(tests[0].test) == 'diagonal.covered_by(polygon) and exterior.intersection(diagonal).equals(multipoint)'
-    ok = ok and 'vertices = [coords[i], coords[i + 2]]' in txt and 'diagonal = LineString(vertices)' in txt and 'multipoint = MultiPoint(vertices)' in txt
-    ctx.check('R14.6', ok, "a diagonal (i, i+2) is an ear only if it lies in the polygon and touches the ring at its end points only", tcp, tests[0] if tests else tcp.node)
-    if tests:
-        body = [norm_text(s) for s in tests[0].body]
-        ok = body == ['triangles[triangle_index] = coords[i:i + 3]', 'triangle_index += 1', 'polygon = Polygon(coords[:i + 1] + coords[i + 2:])', 'break']
-        ctx.check('R14.6', ok, "the ear (i, i+1, i+2) is recorded and vertex i+1 removed", tcp, tests[0], construct=f"ear body {body}")
-    ok = ('triangles[triangle_index] = polygon.exterior.coords[:-1]' in txt and 'assert triangle_index + 1 == triangle_count' in txt
-          and any(isinstance(n, ast.For) and n.orelse and any(isinstance(s, ast.Raise) for s in n.orelse) for n in ast.walk(tcp.node)))
-    ctx.check('R14.6', ok, "the last triangle is the remaining ring; a polygon with no ear raises; the count is asserted", tcp, tcp.node)
+    mc = Matcher(ctx, tcp)
+    poly = tcp.params[0]
+    cnt = mc.stmt(f"$count = len({poly}.exterior.coords) - 3")
+    ctx.check('R14.6', cnt is not None, "an n-gon (n+1 ring coordinates) yields n-2 triangles", tcp, cnt or tcp.node, construct='count = len(polygon.exterior.coords) - 3')
+    wl = mc.stmt(f"while len({poly}.exterior.coords) > 4:\n    ...")
+    ctx.check('R14.6', wl is not None, "ears are clipped until a triangle remains", tcp, wl or tcp.node, construct='while len(polygon.exterior.coords) > 4: ...')
+    ok = wl is not None and mc.has(f"$ring = {poly}.exterior", '$coords = $ring.coords[:-1]', within=wl)
+    inner = mc.stmt('for $i in range(len($coords) - 2):\n    ...\nelse:\n    ...', within=wl) if ok else None
+    ok = inner is not None and mc.has('$verts = [$coords[$i], $coords[$i + 2]]', '$diag = LineString($verts)', '$ends = MultiPoint($verts)', within=inner)
+    test = mc.stmt(f"if $diag.covered_by({poly}) and $ring.intersection($diag).equals($ends):\n    ...", within=inner) if ok else None
+    ctx.check('R14.6', test is not None, "a diagonal (i, i+2) is an ear only if it lies in the polygon and touches the ring at its end points only", tcp, test or tcp.node,
+              construct='if diagonal.covered_by(polygon) and exterior.intersection(diagonal).equals(multipoint)')
+    ok = test is not None and mc.ordered('$tris[$k] = $coords[$i:$i + 3]', '$k += 1', f"{poly} = Polygon($coords[:$i + 1] + $coords[$i + 2:])", 'break', within=test)
+    ctx.check('R14.6', ok, "the ear (i, i+1, i+2) is recorded and vertex i+1 removed", tcp, test or tcp.node,
+              construct='triangles[k] = coords[i:i+3]; k += 1; polygon = Polygon(coords[:i+1] + coords[i+2:]); break')
+    ok = (inner is not None and any(isinstance(s, ast.Raise) for s in inner.orelse)
+          and mc.stmt(f"$tris[$k] = {poly}.exterior.coords[:-1]") is not None
+          and (mc.stmt('assert $k + 1 == $count') is not None or mc.stmt('assert $count == $k + 1') is not None)
+          and all(isinstance(r.value, ast.Name) and r.value.id == mc.name('tris') for r in tcp.returns()))
+    ctx.check('R14.6', ok, "the last triangle is the remaining ring; a polygon with no ear raises; the count is asserted", tcp, tcp.node,
+              construct='for ... else: raise; triangles[k] = polygon.exterior.coords[:-1]; assert k + 1 == count')
 
 
 # --------------------------------------------------------------------------- checker self-test
@@ -218,4 +227,7 @@ VARIANTS = [
     V('C14', 'no-dedupe', _T, "    vertex_index = pandas.MultiIndex.from_arrays(all_coords.T).drop_duplicates()", "    vertex_index = pandas.MultiIndex.from_arrays(all_coords.T)", 'R14.5'),
     V('C14', 'hull-area-test', _T, "    polygon_is_concave = numpy.flatnonzero(convex_hull_length != polygon_length)", "    polygon_is_concave = numpy.flatnonzero(~numpy.isclose(shapely.area(convex_hulls), shapely.area(polygons), equal_nan=True))", 'R14.1'),
     V('C14', 'ear-test-weakened', _T, "                diagonal.covered_by(polygon)\n", "                diagonal.intersects(polygon)\n", 'R14.6'),
+    # benign
+    V('C14', 'benign-rename-locals', _T, "    polygon_is_concave = numpy.flatnonzero(convex_hull_length != polygon_length)\n\n    # Categorize each polygon by length, skipping concave polygons.\n    # We will handle them separately.\n    polygon_length[polygon_is_concave] = 0",
+      "    concave_cells = numpy.flatnonzero(convex_hull_length != polygon_length)\n    polygon_is_concave = concave_cells\n    polygon_length[concave_cells] = 0", None),
 ]
